@@ -18,6 +18,9 @@ type sxView struct {
 	fd   *ast.FuncDecl
 	recv types.Object
 	ct   *Cont
+	// anyOrder: loop normalisation may also present a descending visit of all indices as a range (the rule using this view does not
+	// depend on the order in which the elements are visited: a predicate over all of them, a commutative integer fold)
+	anyOrder bool
 }
 
 func (c *Ctx) view(fd *ast.FuncDecl) *sxView {
